@@ -70,6 +70,47 @@ theorem cmp_total (a b : Tag) : compareTags a b < 0 ∨ a = b ∨ compareTags b 
     · exact Or.inl hlt
     · exact Or.inr (Or.inr (by omega))
 
+/-- the two facts `List.mergeSort` needs about `compare_tags ≤ 0` -/
+private theorem le_trans' (a b c : Tag) : decide (compareTags a b ≤ 0) = true → decide (compareTags b c ≤ 0) = true →
+    decide (compareTags a c ≤ 0) = true := by
+  intro h1 h2
+  simp only [decide_eq_true_eq] at *
+  exact (cmp_trans a b c).2 h1 h2
+
+private theorem le_total' (a b : Tag) : (decide (compareTags a b ≤ 0) || decide (compareTags b a ≤ 0)) = true := by
+  have := cmp_antisymm a b
+  simp only [Bool.or_eq_true, decide_eq_true_eq]; omega
+
+/-- `sorted(tags, key=cmp_to_key(compare_tags))` is ordered and a permutation of its input -/
+theorem sort_tags_sorted (l : List Tag) :
+    (sortTags l).Pairwise (fun a b => compareTags a b ≤ 0) ∧ (sortTags l).Perm l := by
+  refine ⟨?_, List.mergeSort_perm l _⟩
+  have := List.pairwise_mergeSort le_trans' le_total' l
+  exact this.imp (by intro a b h; simpa using h)
+
+/-- **sorting by `compare_tags` does not depend on the arrival order, duplicates included**: any two permutations of
+    the same multiset of tags (any length, any depth, any component size) sort to the same list — because
+    `compare_tags` is a total order whose only ties are equal tags. -/
+theorem sort_tags_perm_invariant (l l' : List Tag) (hp : l.Perm l') : sortTags l = sortTags l' := by
+  have s1 := List.pairwise_mergeSort le_trans' le_total' l
+  have s2 := List.pairwise_mergeSort le_trans' le_total' l'
+  have p : (sortTags l).Perm (sortTags l') :=
+    (List.mergeSort_perm l _).trans (hp.trans (List.mergeSort_perm l' _).symm)
+  refine List.Perm.eq_of_pairwise ?_ s1 s2 p
+  intro a b _ _ h1 h2
+  simp only [decide_eq_true_eq] at h1 h2
+  have := cmp_antisymm a b
+  exact (cmp_eq_zero_iff a b).mp (by omega)
+
+/-- a list that is already strictly increasing is what every permutation of it sorts to (`0.9` before `0.10`) -/
+theorem sort_tags_of_sorted (l l' : List Tag) (hp : l'.Perm l)
+    (hs : l.Pairwise (fun a b => compareTags a b < 0)) : sortTags l' = l := by
+  rw [sort_tags_perm_invariant l' l hp]
+  exact List.mergeSort_of_pairwise (hs.imp (by intro a b h; simp only [decide_eq_true_eq]; omega))
+
+example : sortTags [[0, 10], [0, 9], [0]] = [[0], [0, 9], [0, 10]] :=
+  sort_tags_of_sorted _ _ ((List.Perm.swap ..).trans ((List.Perm.swap ..).cons _ |>.trans (List.Perm.swap ..))) (by decide)
+
 /-- `ts` is a prefix chain whose deepest element is `d` -/
 def DeepestOfChain (ts : List Tag) (d : Tag) : Prop :=
   d ∈ ts ∧ (∀ t ∈ ts, t ≠ []) ∧ ∀ t ∈ ts, t <+: d
